@@ -127,7 +127,8 @@ func (s *Swarm) Printf(format string, args ...interface{}) {
 	}
 }
 
-// findPeer retrieves a peer.
+// findPeer retrieves a peer. The callers hold the lock of the swarm, since creating a
+// peer restores its subscriptions from the replicated state.
 func (s *Swarm) findPeer(name mesh.PeerName) *Peer {
 	peer, added := s.members.GetOrAdd(name)
 	if added {
@@ -149,6 +150,9 @@ func (s *Swarm) onPeerOnline(peer *Peer) {
 
 // Occurs when a peer is garbage collected.
 func (s *Swarm) onPeerOffline(name mesh.PeerName) {
+	s.Lock()
+	defer s.Unlock()
+
 	if peer, deleted := s.members.Remove(name); deleted {
 		logging.LogTarget("swarm", "unreachable peer removed", peer.name)
 		peer.Close() // Close the peer on our end
@@ -172,13 +176,19 @@ func (s *Swarm) onPeerOffline(name mesh.PeerName) {
 
 // touch marks the peer as active, creating it (and restoring its subscriptions) if needed.
 func (s *Swarm) touch(name mesh.PeerName) {
+	s.Lock()
+	defer s.Unlock()
+
 	s.findPeer(name)
 	s.members.Touch(name)
 }
 
 // SendTo sends a message to a peer.
 func (s *Swarm) SendTo(name mesh.PeerName, msg *message.Message) error {
+	s.Lock()
 	peer := s.findPeer(name)
+	s.Unlock()
+
 	if !peer.IsActive() {
 		return errors.New("swarm: unable to reply to a request, peer is not active")
 	}
@@ -265,6 +275,12 @@ func (s *Swarm) merge(buf []byte) (mesh.GossipData, error) {
 	if err != nil {
 		return nil, err
 	}
+
+	// The mesh delivers gossip from every connection on its own goroutine. Whether a
+	// subscription changed is decided by looking at the state before and after the merge
+	// and the peers keep count of it, hence only one merge can be applied at a time.
+	s.Lock()
+	defer s.Unlock()
 
 	// Remember which of the incoming subscriptions were active before the merge
 	// and make sure the peers they belong to are known: a peer which comes back is restored
